@@ -34,3 +34,23 @@ template void use_scans(unodb::olc_db<unodb::key_view, unodb::value_view>&, unod
 template void use_scans(unodb::mutex_db<std::uint64_t, unodb::value_view>&, std::uint64_t, std::uint64_t);
 template void use_scans(unodb::mutex_db<unodb::key_view, unodb::value_view>&, unodb::key_view, unodb::key_view);
 }  // namespace usa_uses
+#ifdef UNODB_DETAIL_WITH_STATS
+namespace usa_uses {
+// member templates of the statistics API
+template <class Db>
+void use_stats(const Db& d) {
+  (void)d.template get_node_count<unodb::node_type::LEAF>();
+  (void)d.template get_node_count<unodb::node_type::I4>();
+  (void)d.template get_growing_inode_count<unodb::node_type::I4>();
+  (void)d.template get_growing_inode_count<unodb::node_type::I256>();
+  (void)d.template get_shrinking_inode_count<unodb::node_type::I4>();
+  (void)d.template get_shrinking_inode_count<unodb::node_type::I256>();
+}
+template void use_stats(const unodb::db<std::uint64_t, unodb::value_view>&);
+template void use_stats(const unodb::db<unodb::key_view, unodb::value_view>&);
+template void use_stats(const unodb::olc_db<std::uint64_t, unodb::value_view>&);
+template void use_stats(const unodb::olc_db<unodb::key_view, unodb::value_view>&);
+template void use_stats(const unodb::mutex_db<std::uint64_t, unodb::value_view>&);
+template void use_stats(const unodb::mutex_db<unodb::key_view, unodb::value_view>&);
+}  // namespace usa_uses
+#endif
